@@ -268,12 +268,7 @@ func ResolveAnchors(p *Prog) *Anchors {
 		if callsMkdirAll && a.Mkdir == nil {
 			a.Mkdir = fb
 		}
-		if semSendFirst && a.Acquire == nil {
-			a.Acquire = fb
-		}
-		if semRecvFirst && a.Release == nil {
-			a.Release = fb
-		}
+		_, _ = semSendFirst, semRecvFirst
 		if rangesPlatforms && a.PlatformTest == nil && fb.Type.Results != nil && len(fb.Type.Results.List) == 1 {
 			a.PlatformTest = fb
 		}
@@ -287,9 +282,27 @@ func ResolveAnchors(p *Prog) *Anchors {
 			a.AllowedValues = fb
 		}
 	}
+	// slot API: methods of package task returning func() whose first semaphore operation (following package helpers) is a send / a receive
+	for _, fb := range p.BodiesIn(PkgTask) {
+		if fb.Decl == nil || fb.Type.Results == nil || len(fb.Type.Results.List) != 1 {
+			continue
+		}
+		if tv, ok := fb.Info().Types[fb.Type.Results.List[0].Type]; !ok || types.TypeString(tv.Type, nil) != "func()" {
+			continue
+		}
+		ops := a.semOps(fb.Body, fb.Info(), 2)
+		if len(ops) == 0 {
+			continue
+		}
+		switch {
+		case ops[0] == "send" && a.Acquire == nil:
+			a.Acquire = fb
+		case ops[0] == "recv" && a.Release == nil:
+			a.Release = fb
+		}
+	}
 	a.need("command runner (function passing an ast.Cmd's Cmd to execext.RunCommand)", a.CmdRunner)
 	a.need("dependency runner (function ranging over []*ast.Dep that calls RunTask)", a.DepRunner)
-	a.need("dedup function (reads and writes Executor.executionHashes)", a.Dedup)
 	a.need("task compiler (function building the ast.Task literal)", a.CompiledTask)
 	a.need("variable resolver (Compiler method calling env.GetEnviron)", a.GetVariables)
 	a.need("status rollback (function calling SourcesCheckable.OnError)", a.StatusOnError)
@@ -301,19 +314,35 @@ func ResolveAnchors(p *Prog) *Anchors {
 	a.need("required-vars test", a.RequiredVars)
 	a.need("allowed-values test", a.AllowedValues)
 
-	// body closure: the literal passed to the dedup function from RunTask
-	if a.RunTask != nil && a.Dedup != nil {
+	// dedup function and task body: RunTask hands a literal `func(context.Context) error` to a function of the package;
+	// that function is the dedup function (it may keep the table access in a helper), the literal is the task body
+	if a.RunTask != nil {
+		info := a.RunTask.Info()
 		for _, call := range callsIn(a.RunTask, false) {
-			if fn, ok := callee(a.RunTask.Info(), call).(*types.Func); ok && fn == a.Dedup.Obj {
-				for _, arg := range call.Args {
-					if fl, ok := ast.Unparen(arg).(*ast.FuncLit); ok {
-						a.BodyClosure = p.LitBody(fl)
-						a.DedupCall = call
+			fn, ok := callee(info, call).(*types.Func)
+			if !ok || p.DeclOf(fn) == nil || p.DeclOf(fn).Pkg.PkgPath != PkgTask {
+				continue
+			}
+			for _, arg := range call.Args {
+				var fl *ast.FuncLit
+				if l, ok := ast.Unparen(arg).(*ast.FuncLit); ok {
+					fl = l
+				} else if v := varOf(info, arg); v != nil {
+					if d := singleDef(info, a.RunTask.Body, v); d != nil {
+						fl, _ = ast.Unparen(d).(*ast.FuncLit)
 					}
+				}
+				if fl == nil {
+					continue
+				}
+				if sig, ok := info.TypeOf(fl).(*types.Signature); ok && sig.Params().Len() == 1 && sig.Results().Len() == 1 && types.TypeString(sig.Params().At(0).Type(), nil) == "context.Context" {
+					a.BodyClosure = p.LitBody(fl)
+					a.DedupCall = call
+					a.Dedup = p.DeclOf(fn)
 				}
 			}
 		}
-		a.need("task body closure (literal passed to the dedup function by RunTask)", a.BodyClosure)
+		a.need("task body closure (literal func(context.Context) error handed by RunTask to the dedup function)", a.BodyClosure)
 	}
 	a.computeReachCmd()
 	// deferred-command runner: callee of a defer in the body closure that reaches the command runner
@@ -372,4 +401,66 @@ func (a *Anchors) IsCmdEvent(obj types.Object) bool {
 func (a *Anchors) is(obj types.Object, fb *FuncBody) bool {
 	fn, ok := obj.(*types.Func)
 	return ok && fb != nil && fb.Obj != nil && (fn == fb.Obj || fn.Origin() == fb.Obj)
+}
+
+// semOps lists, in source order, the operations on Executor.concurrencySemaphore performed by a body (function literals
+// excluded), following calls to functions of package task up to the given depth.
+func (a *Anchors) semOps(body ast.Node, info *types.Info, depth int) []string {
+	var ops []string
+	inspectBody(body, func(n ast.Node) bool {
+		switch x := n.(type) {
+		case *ast.SendStmt:
+			if fieldSel(info, x.Chan, PkgTask, "Executor", "concurrencySemaphore") {
+				ops = append(ops, "send")
+			}
+		case *ast.UnaryExpr:
+			if x.Op == token.ARROW && fieldSel(info, x.X, PkgTask, "Executor", "concurrencySemaphore") {
+				ops = append(ops, "recv")
+			}
+		case *ast.CallExpr:
+			if depth > 0 {
+				if fn, ok := callee(info, x).(*types.Func); ok {
+					if d := a.P.DeclOf(fn); d != nil && d.Pkg.PkgPath == PkgTask {
+						ops = append(ops, a.semOps(d.Body, d.Info(), depth-1)...)
+					}
+				}
+			}
+		}
+		return true
+	})
+	return ops
+}
+
+// returnedFuncOps: the semaphore operations of the function values a slot function returns (literal, method value or function name).
+func (a *Anchors) returnedFuncOps(fb *FuncBody) [][]string {
+	var out [][]string
+	info := fb.Info()
+	for _, r := range returnsOf(fb.Body) {
+		if len(r.Results) != 1 {
+			continue
+		}
+		switch x := ast.Unparen(r.Results[0]).(type) {
+		case *ast.FuncLit:
+			out = append(out, a.semOps(x.Body, info, 2))
+		case *ast.SelectorExpr:
+			if fn, ok := info.Uses[x.Sel].(*types.Func); ok {
+				if d := a.P.DeclOf(fn); d != nil {
+					out = append(out, a.semOps(d.Body, d.Info(), 2))
+					continue
+				}
+			}
+			out = append(out, nil)
+		case *ast.Ident:
+			if fn, ok := info.Uses[x].(*types.Func); ok {
+				if d := a.P.DeclOf(fn); d != nil {
+					out = append(out, a.semOps(d.Body, d.Info(), 2))
+					continue
+				}
+			}
+			out = append(out, nil)
+		default:
+			out = append(out, []string{"?"})
+		}
+	}
+	return out
 }
